@@ -147,10 +147,11 @@ def expr_supplied():
 
 PRELUDE = "class A {\n}\nclass B {\n}\ntype Al int\ntype Bl str\n"
 
-CONTEXTS = ["assign", "argument", "return", "reassign", "or", "rebind"]
+CONTEXTS = ["assign", "argument", "argument2", "return", "reassign", "or", "rebind"]
 DIAG = {
     "assign": "declaration wanted",
     "argument": "type mismatch when calling function",
+    "argument2": "type mismatch when calling function",
     "return": "this function was expected to return",
     "reassign": "type mismatch: cannot assign",
     "or": "portion of this unwrap must yield",
@@ -167,6 +168,9 @@ def program(ctx_name, T, U_expr, U_params):
     elif ctx_name == "argument":
         ps.append("g: fn(%s)" % Ts)
         body = "g(%s)" % U_expr
+    elif ctx_name == "argument2":
+        ps.append("g: fn(int, %s)" % Ts)
+        body = "g(1, %s)" % U_expr
     elif ctx_name == "return":
         return PRELUDE + "f = fn(%s) -> %s {\n\treturn %s\n}\n" % (", ".join(ps), "(%s)" % Ts if T[0] == "fn" else Ts, U_expr)
     elif ctx_name == "reassign":
@@ -231,7 +235,7 @@ def model_eval(cases):
 
 MODEL_CALL = {
     # context -> (flags, swapped?)  : which eq_complex call the compiler makes
-    "assign": ("fl_assign", False), "argument": ("fl_argument", False), "or": ("fl_or", False),
+    "assign": ("fl_assign", False), "argument": ("fl_argument", False), "argument2": ("fl_argument", False), "or": ("fl_or", False),
     "rebind": ("classless", False), "return": ("fl_return", False), "reassign": ("fl_reassign", True),
 }
 
